@@ -1315,6 +1315,233 @@ func vbRunHistory(out *vOut, id int, kind string, h []vbEv) {
 	out.Case(id, kind, cCtor("mk_bcase", cNi(id), cNi(0), cListN([]int{0, 1, 2, 9}), cList(steps)), h)
 }
 
+
+// ---------------------------------------------------------------- C05 through the whole controller
+// speaker/main.go decides which pool's advertisements a Service's routes are built from (poolFor):
+// histories of configuration / service events on the real controller with pools that are
+// regrouped (a dual-stack pool split into a v4 and a v6 pool with different advertisements),
+// single- and dual-stack services, also with the two addresses in different pools.
+
+type vbWPool struct {
+	CIDRs []string `json:"cidrs"`
+	BGP   []vbBAdv `json:"bgp"`
+}
+type vbWCfg struct {
+	Pools []vbWPool `json:"pools"`
+	Peers []vbPeer  `json:"peers"`
+}
+type vbWEv struct {
+	Op  string   `json:"op"` // cfg set del
+	Svc int      `json:"svc,omitempty"`
+	IPs []string `json:"ips,omitempty"`
+	Cfg *vbWCfg  `json:"cfg,omitempty"`
+}
+
+var vbWIPs = [][]string{
+	{"10.20.30.1"}, {"fc00:30::1"}, {"10.20.31.1"},
+	{"10.20.30.1", "fc00:30::1"}, {"fc00:30::2", "10.20.30.2"}, // one pool, or two after the split
+	{"10.20.30.2", "fc00:31::1"},                               // always two pools
+	{"10.20.31.1", "fc00:31::1"},
+}
+
+func vbWGenCfg(r *rand.Rand) *vbWCfg {
+	c := &vbWCfg{}
+	for i := 0; i < 3; i++ {
+		if i == 0 || r.Intn(3) != 0 {
+			c.Peers = append(c.Peers, vbPeer{Name: i, Sels: [][][2]int{}})
+		}
+	}
+	var groups [][]string
+	if r.Intn(2) == 0 {
+		groups = append(groups, []string{"10.20.30.0/24", "fc00:30::/64"})
+	} else { // the dual-stack pool split into a v4 pool and a v6 pool
+		groups = append(groups, []string{"10.20.30.0/24"}, []string{"fc00:30::/64"})
+	}
+	if r.Intn(4) != 0 {
+		groups = append(groups, []string{"10.20.31.0/24", "fc00:31::/64"})
+	}
+	for pi, g := range groups {
+		pl := vbWPool{CIDRs: g, BGP: vbGenBAdvs(r)}
+		for ai := range pl.BGP { // every advertisement recognisable by its local preference; mostly selecting this node
+			pl.BGP[ai].LP = 10*(pi+1) + ai
+			if r.Intn(4) != 0 {
+				pl.BGP[ai].Nodes = []int{0}
+				pl.BGP[ai].NodeFalse = []int{}
+			}
+		}
+		c.Pools = append(c.Pools, pl)
+	}
+	return c
+}
+
+func vbWGenHistory(r *rand.Rand) []vbWEv {
+	h := []vbWEv{{Op: "cfg", Cfg: vbWGenCfg(r)}}
+	for n := 5 + r.Intn(9); n > 0; n-- {
+		x := r.Intn(100)
+		switch {
+		case x < 25:
+			h = append(h, vbWEv{Op: "cfg", Cfg: vbWGenCfg(r)})
+		case x < 38:
+			h = append(h, vbWEv{Op: "del", Svc: r.Intn(3)})
+		default:
+			h = append(h, vbWEv{Op: "set", Svc: r.Intn(3), IPs: vbWIPs[r.Intn(len(vbWIPs))]})
+		}
+	}
+	return h
+}
+
+func vbWBuildCfg(c *vbWCfg) *config.Config {
+	cfg := &config.Config{Peers: map[string]*config.Peer{}, Pools: &config.Pools{ByName: map[string]*config.Pool{}}}
+	for _, p := range c.Peers {
+		cfg.Peers[vbPeerName(p.Name)] = vbBuildPeer(p)
+	}
+	for i, pl := range c.Pools {
+		p := &config.Pool{Name: fmt.Sprintf("pool%d", i)}
+		for _, cs := range pl.CIDRs {
+			_, n, err := net.ParseCIDR(cs)
+			if err != nil {
+				panic(err)
+			}
+			p.CIDR = append(p.CIDR, n)
+		}
+		for _, a := range pl.BGP {
+			p.BGPAdvertisements = append(p.BGPAdvertisements, vbBuildBAdv(a))
+		}
+		cfg.Pools.ByName[p.Name] = p
+	}
+	return cfg
+}
+
+func vbWPoolOf(c *vbWCfg, ip string) int {
+	x := net.ParseIP(ip)
+	for i, pl := range c.Pools {
+		for _, cs := range pl.CIDRs {
+			_, n, _ := net.ParseCIDR(cs)
+			if n.Contains(x) {
+				return i
+			}
+		}
+	}
+	return -1
+}
+
+// the routes the advertisements of pool pi produce for address ip towards peer p
+func vbWRoutes(c *vbWCfg, pi int, ip string, p int) map[string]vbAd {
+	ev := vbEv{Op: "set", IPs: []string{ip}, Advs: c.Pools[pi].BGP}
+	return vbIntended(&vbWorld{svcs: map[int]vbEv{0: ev}}, p)
+}
+
+func vbRunWhole(out *vOut, kind string, h []vbWEv) {
+	sm := &vbSM{}
+	ctl := vbNewController(sm, false, true)
+	lg := log.NewNopLogger()
+	T := true
+	eps := vbBuildEps(vbLayout{Eps: [][]vbEP{{{Ready: &T, Node: 0, Addrs: []int{1}}}}})
+	K := map[int][]string{}
+	var cur *vbWCfg
+	setSvc := func(n int) {
+		svc := vbSvc(false, K[n]...)
+		svc.Name = fmt.Sprintf("s%d", n)
+		ctl.SetBalancer(lg, vbSvcName(n), svc, eps)
+	}
+	failed := false
+	for i, e := range h {
+		switch e.Op {
+		case "cfg":
+			built := vbWBuildCfg(e.Cfg)
+			st := ctl.SetConfig(lg, built)
+			if ctl.config == built {
+				cur = e.Cfg
+			}
+			if st == 2 { // SyncStateReprocessAll
+				var names []int
+				for n := range K {
+					names = append(names, n)
+				}
+				sort.Ints(names)
+				for _, n := range names {
+					setSvc(n)
+				}
+			}
+			out.Stat("whole_cfg", 1)
+		case "set":
+			K[e.Svc] = e.IPs
+			setSvc(e.Svc)
+			out.Stat("whole_set", 1)
+		case "del":
+			delete(K, e.Svc)
+			ctl.SetBalancer(lg, vbSvcName(e.Svc), nil, nil)
+			out.Stat("whole_del", 1)
+		}
+		if cur == nil {
+			continue
+		}
+		live, _ := sm.live()
+		got := map[int]map[string]vbAd{}
+		for nm, s := range live {
+			m := map[string]vbAd{}
+			for _, a := range vbAdSet(s.ads) {
+				m[a.key()] = a
+			}
+			got[vbPeerIdx(nm)] = m
+		}
+		fail := func(sig, what string) {
+			if !failed {
+				failed = true
+				out.Fail(sig, fmt.Sprintf("whole controller, after event %d (%s): %s", i, e.Op, what), map[string]any{"whole_history": h[:i+1]})
+			}
+		}
+		for p, ads := range got {
+			// soundness: every offered route is produced by an advertisement of the pool of ITS address
+			allowed := map[string]bool{}
+			for _, ips := range K {
+				for _, ip := range ips {
+					if pi := vbWPoolOf(cur, ip); pi >= 0 {
+						for k := range vbWRoutes(cur, pi, ip, p) {
+							allowed[k] = true
+						}
+					}
+				}
+			}
+			for k, a := range ads {
+				out.Stat("whole_routes_checked", 1)
+				if !allowed[k] {
+					fail("bgp-route-not-produced-by-the-pool-of-its-address",
+						fmt.Sprintf("peer %d is offered %s, which no advertisement of the pool containing that address produces", p, vbAdJSON(a)))
+				}
+			}
+			// completeness: a Service whose addresses all lie in one pool is offered with that pool's advertisements
+			for n, ips := range K {
+				pi := vbWPoolOf(cur, ips[0])
+				one := pi >= 0
+				for _, ip := range ips {
+					if vbWPoolOf(cur, ip) != pi {
+						one = false
+					}
+				}
+				if !one {
+					if len(ips) == 2 && vbWPoolOf(cur, ips[0]) >= 0 && vbWPoolOf(cur, ips[1]) >= 0 {
+						out.Stat("whole_dual_stack_across_pools", 1)
+					}
+					continue
+				}
+				for _, ip := range ips {
+					for k, a := range vbWRoutes(cur, pi, ip, p) {
+						if _, ok := ads[k]; !ok {
+							fail("bgp-whole-controller-route-missing",
+								fmt.Sprintf("service s%d (%v, pool %d): peer %d is not offered %s", n, ips, pi, p, vbAdJSON(a)))
+						}
+						out.Stat("whole_expected_routes", 1)
+					}
+				}
+			}
+		}
+	}
+	out.Stat("whole_histories", 1)
+}
+
+func vbAdJSON(a vbAd) string { b, _ := json.Marshal(a); return string(b) }
+
 func TestVerifBgpAds(t *testing.T) {
 	out := vOpen()
 	defer out.Close()
@@ -1354,5 +1581,30 @@ func TestVerifBgpAds(t *testing.T) {
 	for k := 0; k < n; k++ {
 		id++
 		vbRunHistory(out, id, "random", vbGenHistory(r))
+	}
+	// ---- the same property through speaker/main.go (pool attribution)
+	one := func(lp int, peers ...int) []vbBAdv {
+		return []vbBAdv{{Agg4: 32, Agg6: 128, LP: lp, Comms: []int{}, Nodes: []int{0}, NodeFalse: []int{}, Peers: peers}}
+	}
+	split := &vbWCfg{Peers: []vbPeer{{Name: 0, Sels: [][][2]int{}}, {Name: 1, Sels: [][][2]int{}}},
+		Pools: []vbWPool{{CIDRs: []string{"10.20.30.0/24"}, BGP: one(11, 0)}, {CIDRs: []string{"fc00:30::/64"}, BGP: one(21, 1)}}}
+	dual := &vbWCfg{Peers: split.Peers, Pools: []vbWPool{{CIDRs: []string{"10.20.30.0/24", "fc00:30::/64"}, BGP: one(11)}}}
+	vbRunWhole(out, "corpus-dual-stack-pool-split", []vbWEv{
+		{Op: "cfg", Cfg: dual}, {Op: "set", Svc: 0, IPs: []string{"10.20.30.1", "fc00:30::1"}},
+		{Op: "cfg", Cfg: split}, {Op: "set", Svc: 1, IPs: []string{"fc00:30::2", "10.20.30.2"}}, {Op: "set", Svc: 2, IPs: []string{"10.20.30.1"}}})
+	if rp := os.Getenv("VERIF_REPLAY"); rp != "" {
+		if b, err := os.ReadFile(rp); err == nil {
+			var x struct {
+				Replay struct {
+					Whole []vbWEv `json:"whole_history"`
+				} `json:"replay"`
+			}
+			if json.Unmarshal(b, &x) == nil && len(x.Replay.Whole) > 0 {
+				vbRunWhole(out, "replay", x.Replay.Whole)
+			}
+		}
+	}
+	for k := 0; k < n; k++ {
+		vbRunWhole(out, "random", vbWGenHistory(r))
 	}
 }
